@@ -1,9 +1,12 @@
 #!/bin/bash
-# seed_matrix.sh : runs every stored seed against the quick check of its own property (and extra checks given in
-# seeded/<id>/also.txt), records the outcome in seeded/<id>/meta.json (detected_by / missed_by) and prints a table.
+# seed_matrix.sh [id ...] : runs every stored seed (or the given ones) against the quick check of its own property
+# (and the extra checks named in seeded/<id>/also.txt) in a scratch worktree (tools/try_seed_wt.sh), records the
+# outcome in seeded/<id>/meta.json (detected_by / missed_by / first_report) and prints a table.
+# PAR=<n> seeds are tried concurrently (default 3).
 cd /verif
-for d in seeded/*/; do
-  id=$(basename "$d"); P=$(/venv/bin/python -c "import json;print(json.load(open('$d/meta.json'))['property'])")
+one() {
+  id="$1"; d="seeded/$id"
+  P=$(/venv/bin/python -c "import json;print(json.load(open('$d/meta.json'))['property'])")
   also=""; [ -f "$d/also.txt" ] && also=$(cat "$d/also.txt")
   res=$(${SEED_TRY:-tools/try_seed_wt.sh} "$id" $P $also 2>&1)
   det=$(echo "$res" | grep DETECTED | sed -E "s/.* vs (C[0-9]+): DETECTED.*/\1/" | tr '\n' ' ')
@@ -16,4 +19,7 @@ m = json.load(open(p)); m['detected_by'] = det.split(); m['missed_by'] = mis.spl
 json.dump(m, open(p, 'w'), indent=1)
 PY
   echo "$id | $P | detected: ${det:-none} | missed: ${mis:-none}"
-done
+}
+export -f one
+if [ $# -gt 0 ]; then ids="$*"; else ids=$(ls seeded); fi
+echo $ids | tr ' ' '\n' | xargs -P "${PAR:-3}" -I{} bash -c 'one {}'
